@@ -1,5 +1,6 @@
 CONSTANTS
-  MaxLen = 5
+  MaxLen = 4
+  NameLen = 5
   MaxSteps = 3
 INIT Init
 NEXT Next
